@@ -7,6 +7,7 @@ batch of pool items, how to cut an output into rows and how to compare them.
 Everything built for a call is a fresh object (so that snapshots belong to one call).
 """
 import copy
+import os
 
 import numpy as np
 import scipy.sparse
@@ -700,8 +701,12 @@ class WassersteinCase(Case):
                 which = allowed[tape.draw("ot.which2", len(allowed))]
         c = cls(which)
         c.which = which
-        c.n_vec = tape.choice("ot.nvec", [4, 6, 8])
-        c.dim = tape.choice("ot.dim", [2, 3])
+        # mostly tiny shapes; sometimes (compiled mode, where it is affordable) a shape for which the randomized SVD
+        # is not exact: LOT dimension 64 and 20-row blocks, both above n_components + 10 oversamples
+        c.big_shape = (not ctx.interp) and which in ("W-exact-spmatrix", "W-exact-lil", "W-exact-generator") \
+            and tape.chance("ot.big_shape", 1, 5)
+        c.n_vec = tape.choice("ot.nvec", [4, 6, 8]) if not c.big_shape else 12
+        c.dim = tape.choice("ot.dim", [2, 3]) if not c.big_shape else 4
         c.vectors = np.asarray([[(tape.draw("ot.vcoord", 17) - 8) / 4.0 + (0.125 if j == 0 else 0.0) for j in range(c.dim)]
                                 for _ in range(c.n_vec)], dtype=np.float64)
         # make sure no vector is zero (cosine metric)
@@ -713,7 +718,7 @@ class WassersteinCase(Case):
         c.outlier = tape.chance("ot.outlier", 1, 6)
         if c.outlier:
             c.vectors[c.n_vec - 1] *= 512.0
-        n_rows = tape.between("ot.nrows", 7, 13)
+        n_rows = tape.between("ot.nrows", 7, 13) if not c.big_shape else tape.between("ot.nrows_big", 64, 80)
         c.base = draw_counts(tape, "ot.dist", n_rows, c.n_vec, min(4, c.n_vec), allow_empty_row=False)
         # some consecutive rows share their support but not their weights (same points, different masses)
         if tape.chance("ot.same_support", 1, 3):
@@ -725,15 +730,17 @@ class WassersteinCase(Case):
                     b.data[i] = [float(1 + tape.draw("ot.cnt2", 6)) for _ in cols]
             c.base = b.tocsr()
         c.pool = list(range(n_rows))
-        ntrain = tape.between("ot.ntrain", 5, n_rows - 1)
+        ntrain = tape.between("ot.ntrain", 5, n_rows - 1) if not c.big_shape else 60
         c.train_ids = list(range(ntrain))
         c.metric = tape.choice("ot.metric", ["cosine", "euclidean"])
-        ref_size = tape.choice("ot.refsize", [2, 3, 5])
+        ref_size = tape.choice("ot.refsize", [2, 3, 5]) if not c.big_shape else 16
         n_comp = tape.choice("ot.ncomp", [2, 3])
         # memory_size small enough to force block-wise fits (the scratch-file path) most of the time
         lot_dim = ref_size * c.dim
         # 512 rows per block makes the kernels' inner chunk size (max(256, block_size // 64)) smaller than a block
         rows_per_block = tape.weighted("ot.block", [(3, 2), (3, 3), (2, 4), (1, 1), (1, 512), (2, 10 ** 6)])
+        if c.big_shape:
+            rows_per_block = 20
         mem = max(1, rows_per_block * lot_dim * 8)
         c.memory_size = f"{mem}" if mem < 10 ** 8 else "2G"
         c.rows_per_block = rows_per_block
@@ -747,6 +754,7 @@ class WassersteinCase(Case):
                 c.ref_vectors[i, 0] = 1.0
         c.ref_dist = np.full(ref_size, 1.0 / ref_size)
         c.use_cachedir = tape.chance("ot.cachedir", 1, 2)
+        c.cachedir_form = tape.weighted("ot.cachedir_form", [(3, "str"), (1, "pathlib"), (1, "trailing-slash"), (1, "relative")])
         rs = tape.choice("ot.rs", [0, 3, 42])
         if which.startswith("W-"):
             c.cls = WassersteinVectorizer
@@ -788,7 +796,8 @@ class WassersteinCase(Case):
         c.arpack_degenerate = c.is_arpack_degenerate(c.train_ids)
         c.desc.update(params=dict(c.params), n_vectors=c.n_vec, dim=c.dim, n_rows=n_rows, ntrain=ntrain,
                       rows_per_block=rows_per_block, user_reference=c.user_reference, in_format=c.in_format,
-                      use_cachedir=c.use_cachedir, arpack_degenerate_spectrum=c.arpack_degenerate, far_outlier_vector=c.outlier)
+                      use_cachedir=c.use_cachedir, cachedir_form=c.cachedir_form if c.use_cachedir else None,
+                      arpack_degenerate_spectrum=c.arpack_degenerate, far_outlier_vector=c.outlier)
         return c
 
     def is_arpack_degenerate(self, ids):
@@ -802,16 +811,30 @@ class WassersteinCase(Case):
     def ctor_kwargs(self, pobjs):
         kw = dict(self.params)
         if self.use_cachedir and "cachedir" in self.cls.__init__.__code__.co_varnames and getattr(self, "sandbox", None):
-            kw["cachedir"] = self.sandbox
+            # the same directory, named the ways a caller may name it
+            form = getattr(self, "cachedir_form", "str")
+            if form == "pathlib":
+                import pathlib
+                kw["cachedir"] = pathlib.Path(self.sandbox)
+            elif form == "trailing-slash":
+                kw["cachedir"] = self.sandbox + os.sep
+            elif form == "relative":
+                kw["cachedir"] = os.path.relpath(self.sandbox)
+            else:
+                kw["cachedir"] = self.sandbox
         return kw
 
     def _lil(self, ids):
+        # a caller who duplicates an item passes the very same array objects twice: keep that aliasing
         dists, vecs = [], []
+        made = {}
         for i in ids:
-            row = self.base[i]
-            idx = row.indices
-            dists.append(np.asarray(row.data, dtype=np.float64).copy())
-            vecs.append(np.ascontiguousarray(self.vectors[idx].copy()))
+            if i not in made:
+                row = self.base[i]
+                idx = row.indices
+                made[i] = (np.asarray(row.data, dtype=np.float64).copy(), np.ascontiguousarray(self.vectors[idx].copy()))
+            dists.append(made[i][0])
+            vecs.append(made[i][1])
         return dists, vecs
 
     def _vectors(self, alt):
